@@ -391,6 +391,7 @@ def injector_part(ctx):
             col = (lambda j: ["f0", "f1", "lab"][j]) if isdf else (lambda j: j)
             lo = int(rng.integers(0, n)); hi = int(rng.integers(lo, n + 1))
             dicts = []
+            expect_reject = False
             if kind == "FeatureShiftInjector":
                 args, kw = (obj, lo, hi, col(int(rng.integers(2))), float(rng.integers(1, 4)) / 2), {}
             elif kind == "FeatureSwapInjector":
@@ -405,11 +406,13 @@ def injector_part(ctx):
             elif kind == "LabelJoinInjector":
                 args, kw = (obj, lo, hi, col(2), 0, 1, 5), {}
             elif kind == "LabelProbabilityInjector":
-                cp = [{0: 0.5}, {0: 0.25, 1: 0.5}, {2: 1.0}, {0: 0.25, 1: 0.25, 2: 0.5}][k % 4]
+                cp = [{0: 0.5}, {0: 0.25, 1: 0.5}, {2: 1.0}, {0: 0.25, 1: 0.25, 2: 0.5}, {0: 0.75, 1: 0.75}, {0: 0.0, 1: 0.5}][k % 6]
+                expect_reject = k % 6 == 4            # probabilities above 1 in total: refused, and refused calls change nothing either
                 dicts = [cp]
                 args, kw = (obj, lo, hi, col(2), cp), {}
             else:
-                al = [{0: 4, 1: 1, 2: 1}, {0: 1, 1: 1, 2: 1}][k % 2]
+                al = [{0: 4, 1: 1, 2: 1}, {0: 1, 1: 1, 2: 1}, {0: 4, 1: 0, 2: 1}, {0: 0, 1: 0, 2: 0}, {0: 2.5, 1: 0.5}][k % 5]
+                expect_reject = k % 5 in (2, 3)       # a zero weight: numpy's dirichlet refuses it
                 dicts = [al]
                 args, kw = (obj, lo, hi, col(2), al), {}
             before, dbefore = snap(obj), [snap(d) for d in dicts]
@@ -418,9 +421,17 @@ def injector_part(ctx):
             try:
                 out = (shared if k % 3 else getattr(inj, kind)())(*args, **kw)
             except Exception as ex:
-                # the mixed-dtype frame is coerced by np.copy; an injector may legitimately refuse nothing here
-                c14.report(ctx, signature={"class": "injector-raised", "component": kind},
-                           what="%s raised %s: %s" % (kind, type(ex).__name__, str(ex)[:100]), layout=layout, window=[lo, hi], values=M.tolist())
+                # the mixed-dtype frame is coerced by np.copy; an injector may legitimately refuse nothing here except the
+                # argument dictionaries marked expect_reject -- and a refused call must leave what it was given untouched as well
+                if not expect_reject:
+                    c14.report(ctx, signature={"class": "injector-raised", "component": kind},
+                               what="%s raised %s: %s" % (kind, type(ex).__name__, str(ex)[:100]), layout=layout, window=[lo, hi], values=M.tolist())
+                else:
+                    ctx.count("inj:refused-call:" + kind)
+                    ctx.case((kind, k, "refused"), True)
+                if snap(obj) != before or snap(base) != base_before or [snap(d) for d in dicts] != dbefore:
+                    c14.report(ctx, signature={"class": "input-mutated", "component": kind}, what=kind + " changed its input / dict argument in a call that raised",
+                               injector=kind, layout=layout, window=[lo, hi], values=M.tolist(), dict_args=[repr(d) for d in dicts], raised=type(ex).__name__)
                 continue
             ctx.case((kind, k), True)
             ctx.count("inj:%s:%s" % (kind, layout))
